@@ -562,3 +562,311 @@ pub fn run_c16(a: &Args) {
     out.finish();
     std::process::exit(0);
 }
+
+// ------------------------------------------------------------------------------------------ C15
+/// one manager / entry operation of a scenario thread
+#[derive(Clone, Debug)]
+pub struct MOp {
+    pub fam: String,
+    pub op: String,
+}
+
+fn c15_rule_flow(res: &str, id: &str, thr: f64) -> Arc<flow::Rule> {
+    Arc::new(flow::Rule { id: id.into(), resource: res.into(), threshold: thr, ..Default::default() })
+}
+fn c15_rule_iso(res: &str, id: &str, thr: u32) -> Arc<isolation::Rule> {
+    Arc::new(isolation::Rule { id: id.into(), resource: res.into(), threshold: thr, ..Default::default() })
+}
+fn c15_rule_hot(res: &str, id: &str, thr: u64) -> Arc<hotspot::Rule> {
+    Arc::new(hotspot::Rule { id: id.into(), resource: res.into(), metric_type: hotspot::MetricType::QPS, threshold: thr,
+                             duration_in_sec: 1, param_index: 0, ..Default::default() })
+}
+fn c15_rule_cb(res: &str, id: &str, thr: f64) -> Arc<cb::Rule> {
+    Arc::new(cb::Rule { id: id.into(), resource: res.into(), strategy: cb::BreakerStrategy::ErrorCount, retry_timeout_ms: 1000,
+                        min_request_amount: 0, stat_interval_ms: 1000, stat_sliding_window_bucket_count: 1,
+                        max_allowed_rt_ms: 0, threshold: thr })
+}
+fn c15_rule_sys(id: &str, thr: f64) -> Arc<system::Rule> {
+    Arc::new(system::Rule { id: id.into(), metric_type: system::MetricType::Concurrency, threshold: thr,
+                            strategy: system::AdaptiveStrategy::NoAdaptive })
+}
+
+/// R = the resource under test, R2 another one
+fn c15_exec(op: &MOp, r: &str, r2: &str) {
+    let (rs, r2s) = (r.to_string(), r2.to_string());
+    macro_rules! fam_ops {
+        ($m:ident, $mk:expr) => {
+            match op.op.as_str() {
+                "loadA" => { let _ = $m::load_rules(vec![$mk(r, "a", 1)]); }
+                "loadB" => { let _ = $m::load_rules(vec![$mk(r, "b", 2), $mk(r2, "c", 3)]); }
+                "loadres" => { let _ = $m::load_rules_of_resource(&rs, vec![$mk(r, "b", 2), $mk(r, "e", 5)]); }
+                "loadres0" => { let _ = $m::load_rules_of_resource(&rs, vec![]); }
+                "append" => { let _ = $m::append_rule($mk(r, "d", 4)); }
+                "clear" => { $m::clear_rules(); }
+                "clearres" => { $m::clear_rules_of_resource(&rs); }
+                "get" => { let _ = $m::get_rules(); }
+                "getres" => { let _ = $m::get_rules_of_resource(&rs); }
+                o => panic!("unknown op {}", o),
+            }
+        };
+    }
+    match (op.fam.as_str(), op.op.as_str()) {
+        (_, "entry") | (_, "entryerr") => {
+            if let Ok(e) = EntryBuilder::new(rs.clone()).with_args(Some(vec!["v".into()])).build() {
+                if op.op == "entryerr" {
+                    sentinel_core::api::trace_error(&e, sentinel_core::Error::msg("verif error"));
+                }
+                e.exit();
+            }
+        }
+        ("flow", _) => fam_ops!(flow, |a: &str, b: &str, k: u32| c15_rule_flow(a, b, k as f64)),
+        ("iso", _) => fam_ops!(isolation, |a: &str, b: &str, k: u32| c15_rule_iso(a, b, k)),
+        ("hot", _) => fam_ops!(hotspot, |a: &str, b: &str, k: u32| c15_rule_hot(a, b, k as u64)),
+        ("cb", _) => fam_ops!(cb, |a: &str, b: &str, k: u32| c15_rule_cb(a, b, k as f64)),
+        ("sys", o) => match o {
+            "loadA" => system::load_rules(vec![c15_rule_sys("a", 100.0)]),
+            "loadB" => system::load_rules(vec![c15_rule_sys("b", 200.0), c15_rule_sys("c", 300.0)]),
+            "append" => { let _ = system::append_rule(c15_rule_sys("d", 400.0)); }
+            "clear" => system::clear_rules(),
+            "get" => { let _ = system::get_rules(); }
+            o => panic!("unknown sys op {}", o),
+        },
+        (f, o) => panic!("unknown {} {}", f, o),
+    }
+}
+
+fn c15_reset(r: &str) {
+    let _ = guarded(|| flow::clear_rules());
+    let _ = guarded(|| isolation::clear_rules());
+    let _ = guarded(|| hotspot::clear_rules());
+    let _ = guarded(|| cb::clear_rules());
+    let _ = guarded(|| system::clear_rules());
+    // something is in force on the resource under test in every family
+    let _ = guarded(|| flow::load_rules(vec![c15_rule_flow(r, "a", 1.0)]));
+    let _ = guarded(|| isolation::load_rules(vec![c15_rule_iso(r, "a", 1)]));
+    let _ = guarded(|| hotspot::load_rules(vec![c15_rule_hot(r, "a", 1)]));
+    let _ = guarded(|| cb::load_rules(vec![c15_rule_cb(r, "a", 1.0)]));
+    let _ = guarded(|| system::load_rules(vec![c15_rule_sys("a", 100.0)]));
+}
+
+/// every manager still answers queries and accepts updates, an entry can still be built
+fn c15_health() -> String {
+    let probes: Vec<(&str, Box<dyn FnOnce()>)> = vec![
+        ("flow", Box::new(|| { let _ = flow::get_rules(); let _ = flow::load_rules_of_resource(&"health".to_string(), vec![c15_rule_flow("health", "h", 9.0)]); flow::clear_rules_of_resource(&"health".to_string()); })),
+        ("iso", Box::new(|| { let _ = isolation::get_rules(); let _ = isolation::load_rules_of_resource(&"health".to_string(), vec![c15_rule_iso("health", "h", 9)]); isolation::clear_rules_of_resource(&"health".to_string()); })),
+        ("hot", Box::new(|| { let _ = hotspot::get_rules(); let _ = hotspot::load_rules_of_resource(&"health".to_string(), vec![c15_rule_hot("health", "h", 9)]); hotspot::clear_rules_of_resource(&"health".to_string()); })),
+        ("cb", Box::new(|| { let _ = cb::get_rules(); let _ = cb::load_rules_of_resource(&"health".to_string(), vec![c15_rule_cb("health", "h", 9.0)]); cb::clear_rules_of_resource(&"health".to_string()); })),
+        ("sys", Box::new(|| { let _ = system::get_rules(); let _ = system::append_rule(c15_rule_sys("h", 900.0)); })),
+        ("entry", Box::new(|| { if let Ok(e) = EntryBuilder::new("health".into()).build() { e.exit(); } })),
+    ];
+    for (name, p) in probes {
+        if let Err(m) = guarded(p) {
+            return format!("bad:{}:{}", name, m.chars().take(80).collect::<String>());
+        }
+    }
+    "ok".into()
+}
+
+pub struct C15Scn {
+    pub name: String,
+    pub threads: Vec<Vec<MOp>>,
+    pub callback: String, // "", "listener", "generator"
+}
+
+fn mop(fam: &str, op: &str) -> MOp {
+    MOp { fam: fam.into(), op: op.into() }
+}
+
+pub fn c15_scenarios(thorough: bool) -> Vec<C15Scn> {
+    let mut v = Vec::new();
+    let ops = ["loadA", "loadB", "loadres", "loadres0", "append", "clear", "clearres", "get"];
+    let sys_ops = ["loadA", "loadB", "append", "clear", "get"];
+    for fam in ["flow", "iso", "hot", "cb", "sys"] {
+        let fo: &[&str] = if fam == "sys" { &sys_ops } else { &ops };
+        for (i, a) in fo.iter().enumerate() {
+            for b in fo.iter().skip(i) {
+                if *a == "get" && *b == "get" {
+                    continue;
+                }
+                // every pair of manager operations of the family, with an entry on the affected resource
+                let entry = if fam == "cb" { "entryerr" } else { "entry" };
+                v.push(C15Scn { name: format!("{}:{}+{}+entry", fam, a, b),
+                                threads: vec![vec![mop(fam, a)], vec![mop(fam, b)], vec![mop(fam, entry)]], callback: "".into() });
+            }
+        }
+    }
+    // across families
+    for (fa, fb) in [("flow", "cb"), ("hot", "iso"), ("cb", "hot"), ("sys", "flow")] {
+        v.push(C15Scn { name: format!("{}:loadB+{}:loadB+entry", fa, fb),
+                        threads: vec![vec![mop(fa, "loadB")], vec![mop(fb, "loadB")], vec![mop("cb", "entryerr")]], callback: "".into() });
+        v.push(C15Scn { name: format!("{}:append+{}:clear+entry", fa, fb),
+                        threads: vec![vec![mop(fa, "append")], vec![mop(fb, "clear")], vec![mop("cb", "entryerr")]], callback: "".into() });
+    }
+    // two-step programs (selected triples)
+    for fam in ["flow", "hot", "cb"] {
+        v.push(C15Scn { name: format!("{}:append,append+clear,loadA+entry", fam),
+                        threads: vec![vec![mop(fam, "append"), mop(fam, "append")], vec![mop(fam, "clear"), mop(fam, "loadA")], vec![mop(fam, if fam == "cb" { "entryerr" } else { "entry" })]],
+                        callback: "".into() });
+    }
+    // call-backs into read-only manager functions
+    v.push(C15Scn { name: "cb:listener-reads+loadB+entryerr".into(),
+                    threads: vec![vec![mop("cb", "entryerr")], vec![mop("cb", "loadB")]], callback: "listener".into() });
+    v.push(C15Scn { name: "cb:listener-reads+clear+entryerr".into(),
+                    threads: vec![vec![mop("cb", "entryerr")], vec![mop("cb", "clear")]], callback: "listener".into() });
+    if thorough {
+        for fam in ["flow", "iso", "hot", "cb"] {
+            for a in ["loadB", "loadres", "append", "clear"] {
+                v.push(C15Scn { name: format!("{}:{}+entry+entry", fam, a),
+                                threads: vec![vec![mop(fam, a)], vec![mop(fam, "entry")], vec![mop(fam, if fam == "cb" { "entryerr" } else { "entry" })]], callback: "".into() });
+            }
+        }
+    }
+    v
+}
+
+/// a listener that reads the manager it is called from (what user code observing transitions may do)
+struct ReadingListener {
+    res: Mutex<String>,
+    on: std::sync::atomic::AtomicBool,
+}
+impl ReadingListener {
+    fn read(&self) {
+        if self.on.load(Ordering::SeqCst) {
+            let r = self.res.lock().unwrap().clone();
+            let _ = cb::get_rules_of_resource(&r);
+            let _ = cb::get_breakers_of_resource(&r);
+        }
+    }
+}
+impl cb::StateChangeListener for ReadingListener {
+    fn on_transform_to_closed(&self, _p: cb::State, _r: Arc<cb::Rule>) {
+        self.read()
+    }
+    fn on_transform_to_open(&self, _p: cb::State, _r: Arc<cb::Rule>, _s: Option<Arc<sentinel_core::base::Snapshot>>) {
+        self.read()
+    }
+    fn on_transform_to_half_open(&self, _p: cb::State, _r: Arc<cb::Rule>) {
+        self.read()
+    }
+    fn on_circuit_breaker_drop(&self, _p: cb::State, _r: Arc<cb::Rule>) {
+        self.read()
+    }
+}
+
+pub fn c15_filter() -> Box<dyn Fn(&Pending) -> bool + Send + Sync> {
+    // scheduling points: every lock acquisition of the rule managers and of the breakers
+    Box::new(|p: &Pending| {
+        matches!(p.op, sync::Op::Lock | sync::Op::Read | sync::Op::Write | sync::Op::TryLock | sync::Op::TryRead | sync::Op::TryWrite)
+            && (p.site.contains("rule_manager.rs") || p.site.starts_with("core/circuitbreaker/") || p.site.contains("node_storage"))
+    })
+}
+
+pub fn run_c15(a: &Args) {
+    let thorough = a.get_or("tier", "quick") == "thorough";
+    let mut out = Out::create(a.get("out"));
+    warm_up();
+    let lis = Arc::new(ReadingListener { res: Mutex::new(String::new()), on: std::sync::atomic::AtomicBool::new(false) });
+    cb::register_state_change_listeners(vec![lis.clone()]);
+    let s = Sched::new(c15_filter());
+    sched::install(&s);
+    let rec = Recorder::new();
+    let mut summary = Vec::new();
+    let only = a.get_or("scenario", "");
+    let plan: Option<Vec<usize>> = a.map.get("plan").map(|p| p.split(',').filter(|x| !x.is_empty()).map(|x| x.parse().unwrap()).collect());
+    let from = a.num("from", 0) as usize;
+    let to = a.num("to", u32::MAX as u64) as usize;
+    // lock programs of single operations (for the model-level composition): `--programs 1`
+    if a.num("programs", 0) == 1 {
+        let mut progs = Vec::new();
+        for fam in ["flow", "iso", "hot", "cb", "sys"] {
+            for op in ["loadA", "loadB", "loadres", "loadres0", "append", "clear", "clearres", "get", "getres", "entry", "entryerr"] {
+                if fam == "sys" && !["loadA", "loadB", "append", "clear", "get"].contains(&op) {
+                    continue;
+                }
+                if (op == "entry" || op == "entryerr") && fam != "cb" {
+                    continue;
+                }
+                let r = format!("c15p-{}-{}", fam, op);
+                c15_reset(&r);
+                clock::set_ns(1_700_200_000_000 * 1_000_000);
+                let m = mop(fam, op);
+                let (r1, r2) = (r.clone(), format!("{}-2", r));
+                let body: Box<dyn FnOnce() + Send> = Box::new(move || {
+                    let _ = guarded(|| c15_exec(&m, &r1, &r2));
+                });
+                let (v, _n, evs, _d) = s.run(vec![body], vec![], &Strategy::Dfs, true);
+                progs.push(json!({"op": format!("{}:{}", fam, op), "verdict": format!("{:?}", v), "events": evs}));
+                if v != Verdict::Completed {
+                    break;
+                }
+            }
+        }
+        sync::uninstall();
+        println!("{}", json!({"programs": progs}));
+        out.finish();
+        std::process::exit(0);
+    }
+    let mut scenarios = c15_scenarios(thorough);
+    if let Some(pair) = a.map.get("pair") {
+        // an ad-hoc pair of operations "fam:op,fam:op" (a candidate of the model-level composition)
+        let ops: Vec<MOp> = pair.split(',').map(|x| { let mut it = x.split(':'); mop(it.next().unwrap(), it.next().unwrap()) }).collect();
+        scenarios = vec![C15Scn { name: format!("pair:{}", pair), threads: ops.into_iter().map(|o| vec![o]).collect(), callback: "".into() }];
+    }
+    for (i, scn) in scenarios.into_iter().enumerate() {
+        if (!only.is_empty() && only != scn.name && !scn.name.starts_with("pair:")) || (only.is_empty() && (i < from || i >= to)) {
+            continue;
+        }
+        let ex = Explore {
+            bound: a.num("bound", if thorough { 2 } else { 1 }) as u32,
+            max_runs: a.num("max", if thorough { 3000 } else { 250 }),
+            random_runs: a.num("random", if thorough { 300 } else { 30 }),
+            seed: a.num("seed", 1),
+            plan: plan.clone(),
+        };
+        let o = explore(&s, &ex, &mut out, &scn.name, |n| {
+            let t0 = EPOCH_MS.fetch_add(60_000, Ordering::SeqCst) + 60_000;
+            clock::set_ns((t0 - t0 % 10_000 + 100) * 1_000_000);
+            let r = format!("c15-{}-{}", std::process::id(), n);
+            let r2 = format!("{}-2", r);
+            lis.on.store(false, Ordering::SeqCst);
+            c15_reset(&r);
+            *lis.res.lock().unwrap() = r.clone();
+            lis.on.store(scn.callback == "listener", Ordering::SeqCst);
+            let _ = rec.take();
+            let mut bodies: Vec<Box<dyn FnOnce() + Send>> = Vec::new();
+            for (th, ops) in scn.threads.iter().enumerate() {
+                let (ops, r, r2, rec) = (ops.clone(), r.clone(), r2.clone(), rec.clone());
+                bodies.push(Box::new(move || {
+                    for op in &ops {
+                        let res = guarded(|| c15_exec(op, &r, &r2));
+                        rec.put(json!({"e": "call", "th": th, "op": format!("{}:{}", op.fam, op.op),
+                                       "r": if res.is_ok() { "ok".to_string() } else { format!("panic:{}", res.err().unwrap().chars().take(100).collect::<String>()) }}));
+                    }
+                }));
+            }
+            let name = scn.name.clone();
+            let rec2 = rec.clone();
+            let lis2 = lis.clone();
+            let finish = Box::new(move |v: &Verdict| -> Vec<Value> {
+                let mut evs = vec![json!({"e": "begin", "scn": name})];
+                evs.extend(rec2.take());
+                lis2.on.store(false, Ordering::SeqCst);
+                if *v == Verdict::Completed {
+                    evs.push(json!({"e": "end", "health": c15_health()}));
+                }
+                evs
+            });
+            (bodies, finish)
+        });
+        let bad = !o.verdicts.is_empty();
+        summary.push(json!({"scenario": scn.name, "executions": o.executions, "distinct_traces": o.distinct,
+                            "dfs_exhausted": o.exhausted, "diverged": o.diverged, "verdicts": o.verdicts}));
+        if bad {
+            break; // a deadlock leaves threads parked inside the code under test: this process is done
+        }
+    }
+    sync::uninstall();
+    println!("{}", json!({"summary": summary}));
+    out.finish();
+    std::process::exit(0);
+}
